@@ -52,7 +52,10 @@ def is_nontrivial(ops):
 FNS = ["field_call", "srf_call", "krige_call", "condsrf_call", "transform", "set_condition",
        "extdrift", "mesh_call", "krige_fit", "model_ctor",
        "vario_estimate", "vario_axis", "standard_bins", "fit_variogram", "normalizer",
-       "mean_norm_trend", "array_transform", "model_funcs", "rejected_call"]
+       "mean_norm_trend", "array_transform", "model_funcs", "rejected_call", "tools_funcs"]
+TOOLS = ["exp_int", "inc_gamma", "inc_gamma_low", "inc_beta", "tplstable_cor", "tpl_exp_spec",
+         "tpl_gau_spec", "generate_grid", "generate_st_grid", "ang2dir", "rotated_main_axes",
+         "matrices", "latlon", "chordal", "transform_apply", "vtk"]
 REJECTED = ["vario_field_shape", "vario_dir_dim", "vario_mask_shape", "krige_cond_len",
             "extdrift_len", "srf_pos_dim", "fit_len", "ctor_anis", "set_condition_len",
             "mnt_shape", "condsrf_pos_dim", "vario_axis_mask", "fit_bad_sill", "krige_bad_err"]
@@ -296,6 +299,8 @@ class Machine:
             op["method"] = rng.choice(ARRAY_TRANSFORMS)
         elif fn == "rejected_call":
             op["what"] = rng.choice(REJECTED)
+        elif fn == "tools_funcs":
+            op["what"] = rng.choice(TOOLS)
         elif fn == "model_funcs":
             op["method"] = rng.choice(["isometrize", "anisometrize", "variogram", "covariance",
                                        "cov_spatial", "vario_spatial", "cov_nugget",
@@ -884,6 +889,105 @@ class Machine:
                         self.objs[name].set_condition(self.cond_pos0.copy(), self.cond_val0.copy())
                     except refused:
                         pass
+
+    def _c_tools_funcs(self, op, rs, site):
+        """Public helpers that take arrays: special functions, grids, rotations, coordinate
+        conversions, transform.apply on a plain Field, in-memory vtk conversion."""
+        from gstools import tools as T
+        from gstools.tools import geometric as G
+        w = op["what"]
+        lay = op["layout"]
+        n = op["n"] + 2
+        A = lambda role, vals: self.alloc(role, vals, lay, site)
+        out = []
+        if w in ("exp_int", "inc_gamma", "inc_gamma_low"):
+            x = A("x", self._vals(rs, (n,), 0.0, 60.0))     # both branches (x < 50, x >= 50)
+            s_ = rs.choice([0.5, 1.0, 2.5])   # documented: float
+            out.append(getattr(T, w)(s_, np.array(x) if lay == "list" else x))
+        elif w == "inc_beta":
+            x = A("x", self._vals(rs, (n,), 0.0, 1.0))
+            out.append(T.inc_beta(1.5, 0.7, np.array(x) if lay == "list" else x))
+        elif w == "tplstable_cor":
+            r = A("r", [0.0] + self._vals(rs, (n,), 0.0, 9.0).tolist())
+            out.append(T.tplstable_cor(np.array(r) if lay == "list" else r, 2.0, 0.5,
+                                       rs.choice([1.0, 2.0])))
+        elif w in ("tpl_exp_spec", "tpl_gau_spec"):
+            k = A("k", self._vals(rs, (n,), 0.0, 5.0))
+            fn = T.tpl_exp_spec_dens if w == "tpl_exp_spec" else T.tpl_gau_spec_dens
+            out.append(fn(np.array(k) if lay == "list" else k, rs.choice([1, 2, 3]), 2.0, 0.5,
+                          rs.choice([0.0, 0.3])))
+        elif w == "generate_grid":
+            axes = [A("pos", sorted(self._vals(rs, (rs.randint(1, 4),), -3, 3).tolist()))
+                    for _ in range(self.dim)]
+            out.append(T.generate_grid(axes))
+        elif w == "generate_st_grid":
+            mesh = rs.choice(["unstructured", "structured"])
+            t = A("time", sorted(self._vals(rs, (3,), 0, 5).tolist()))
+            if mesh == "structured":
+                pos = [A("pos", sorted(self._vals(rs, (3,), -3, 3).tolist()))
+                       for _ in range(self.dim)]
+            else:
+                pos = A("pos", self._vals(rs, (self.dim, n), -3, 3))
+            out.append(T.generate_st_grid(pos, t, mesh_type=mesh))
+        elif w == "ang2dir":
+            d = rs.choice([2, 3, 4])
+            ang = A("angles", self._vals(rs, (rs.randint(1, 3), d - 1), 0.0, 3.0))
+            out.append(T.ang2dir(ang, dim=rs.choice([None, d])))
+        elif w in ("rotated_main_axes", "matrices"):
+            d = rs.choice([2, 3])
+            ang = A("angles", self._vals(rs, (cm.n_angles(d),), 0.0, 3.0))
+            anis = A("anis", self._vals(rs, (d - 1,), 0.3, 2.0))
+            if w == "rotated_main_axes":
+                out.append(T.rotated_main_axes(d, ang))
+            else:
+                for fn in (T.matrix_rotate, T.matrix_derotate):
+                    out.append(fn(d, ang))
+                for fn in (T.matrix_isotropify, T.matrix_anisotropify):
+                    out.append(fn(d, anis))
+                for fn in (T.matrix_isometrize, T.matrix_anisometrize):
+                    out.append(fn(d, ang, anis))
+        elif w == "latlon":
+            ll = A("latlon", np.array([self._vals(rs, (n,), -80, 80), self._vals(rs, (n,), -170, 170)]))
+            rad = rs.choice([1.0, 6371.0])
+            pos = G.latlon2pos(ll, radius=rad, temporal=False)
+            out.append(pos)
+            out.append(G.pos2latlon(pos, radius=rad))
+            if rs.random() < 0.5:
+                llt = A("latlon", np.array([self._vals(rs, (n,), -80, 80),
+                                            self._vals(rs, (n,), -170, 170),
+                                            self._vals(rs, (n,), 0, 9)]))
+                p2 = G.latlon2pos(llt, radius=rad, temporal=True, time_scale=rs.choice([1.0, 2.5]))
+                out.append(p2)
+                out.append(G.pos2latlon(p2, radius=rad, temporal=True, time_scale=2.5))
+        elif w == "chordal":
+            dist = A("dist", self._vals(rs, (n,), 0.0, 1.9))
+            out.append(G.chordal_to_great_circle(dist, rs.choice([1.0, 6371.0])))
+            out.append(G.great_circle_to_chordal(dist, rs.choice([1.0, 6371.0])))
+        elif w == "transform_apply":
+            fld = gs.field.Field(dim=self.dim)
+            pos = A("pos", self._vals(rs, (self.dim, n), -3, 3))
+            vals = A("field", self._vals(rs, (n,), 0.5, 3.0))
+            fld(pos, field=vals, store="f0")
+            method = rs.choice(["binary", "boxcox", "zinnharvey", "normal_force_moments",
+                                "normal_to_lognormal", "normal_to_uniform", "discrete"])
+            kw = {}
+            if method == "discrete":
+                kw = {"values": A("values", [2.0, -1.0, 0.5])}
+            try:
+                out.append(gs.transform.apply(fld, method, field="f0", store=rs.choice(
+                    [True, False, "f1"]), process=rs.random() < 0.5, **kw))
+            except (ValueError, TypeError, AttributeError):
+                self.ctx.probe("transform_refused")
+            out.append(fld["f0"] if "f0" in fld.field_names else None)
+        elif w == "vtk":
+            try:
+                import pyvista  # noqa: F401
+            except ImportError:
+                raise Inapplicable("pyvista not installed")
+        else:
+            raise HarnessError("tools_funcs " + w)
+        for r in out:
+            self.track(r, "returned:" + w, site, "result")
 
     def _c_model_funcs(self, op, rs, site):
         m = self.model
